@@ -610,7 +610,7 @@ func main() {
 		ID: "C41", Model: "C41", Gen: gen, Impl: impl, Oracle: oracle, Serial: true,
 		Cases: func(th bool) int {
 			if th {
-				return 5000
+				return 4000
 			}
 			return 800
 		},
